@@ -5,10 +5,13 @@ Python code on the same lines and diffs the two streams.
 -/
 import FsVerif.Model.Basic
 import FsVerif.Model.PosStore
+import FsVerif.Model.BufStore
 open FsVerif
 
 def parseInt (s : String) : Option Int := s.toInt?
 def parseNat (s : String) : Option Nat := s.toNat?
+
+def showFired (l : List (Nat × Nat)) : String := " ".intercalate (l.map fun p => s!"{p.1}@{p.2}")
 
 def parseFilt (s : String) : Option Filt :=
   match s.splitOn ":" with
@@ -25,6 +28,7 @@ def parseCap (s : String) : Option (Option Nat) :=
 inductive M where
   | none
   | pos (s : PosStore)
+  | buf (s : BufStore)
 
 def showRes : PosStore.Res → String
   | .ok => "ok" | .tok i => s!"tok {i}" | .item x => s!"item {x.id}"
@@ -43,6 +47,26 @@ def posOp (w : List String) : Option PosStore.Op :=
   | ["kstep"] => some .kstep
   | _ => none
 
+def showResB : BufStore.Res → String
+  | .ok => "ok" | .tok i => s!"tok {i}" | .item x => s!"item {x.id}"
+  | .err e => s!"err {e.name}" | .unit => "-"
+
+def bufOp (w : List String) : Option BufStore.Op :=
+  match w with
+  | ["rp", p] => do pure (.reservePut (← parseNat p))
+  | ["rg", p] => do pure (.reserveGet (← parseNat p))
+  | ["rp", p, _] => do pure (.reservePut (← parseNat p))
+  | ["rg", p, _, _] => do pure (.reserveGet (← parseNat p))
+  | ["put", p, t, i, k, d] => do pure (.put (← parseNat p) (← parseNat t) { id := (← parseNat i), kind := (← parseNat k) } (← parseNat d))
+  | ["get", p, t] => do pure (.get (← parseNat p) (← parseNat t))
+  | ["cp", t] => do pure (.cancelPut (← parseNat t))
+  | ["cg", t] => do pure (.cancelGet (← parseNat t))
+  | ["adv", d] => do pure (.adv (← parseNat d))
+  | ["settle"] => some .settle
+  | ["kstep"] => some .kstep
+  | ["final"] => some .final
+  | _ => none
+
 def stepLine (m : M) (line : String) : M × String :=
   let w := (line.trimAscii.toString.splitOn " ").filter (· ≠ "")
   match w with
@@ -53,9 +77,28 @@ def stepLine (m : M) (line : String) : M × String :=
     | some c, some p, some f, some d =>
       (.pos (PosStore.init { cap := c, prio := p != 0, filter := f != 0, trigDelay := d }), "new")
     | _, _, _, _ => (m, "bad-op")
+  | ["new", fam, cap, mode] =>
+    if fam == "buf" || fam == "bufedge" then
+      match parseCap cap with
+      | some c => (.buf (BufStore.init { cap := c, mode := if mode == "LIFO" then .lifo else .fifo }), "new")
+      | none => (m, "bad-op")
+    else (m, "bad-op")
   | _ =>
     match m with
     | .none => (m, "bad-op")
+    | .buf s =>
+      match w with
+      | ["stat"] => (m, s!"stat {s.avgNum} {s.avgDen} {s.level} {s.now}")
+      | ["probe", "can_put"] => (m, s!"probe {s.canPut}")
+      | ["probe", "can_get"] => (m, s!"probe {s.canGet}")
+      | ["probe", "occ"] => (m, s!"probe {s.occupancy}")
+      | ["probe", "ready"] => (m, s!"probe {showNats (s.ready.map (·.item.id))}")
+      | _ =>
+        match bufOp w with
+        | some op =>
+          let (s', r) := s.step op
+          (.buf s', s!"{showResB r} | {showFired s'.fired}" ++ (if s'.crashed then " CRASHED" else ""))
+        | none => (m, "bad-op")
     | .pos s =>
       match w with
       | ["stat"] => (m, s!"stat {s.avgNum} {s.avgDen} {s.items.length} {s.now}")
@@ -63,7 +106,7 @@ def stepLine (m : M) (line : String) : M × String :=
         match posOp w with
         | some op =>
           let (s', r) := s.step op
-          (.pos s', s!"{showRes r} | {showNats s'.fired}")
+          (.pos s', s!"{showRes r} | {showFired s'.fired}")
         | none => (m, "bad-op")
 
 partial def loop (h : IO.FS.Stream) (out : IO.FS.Stream) (m : M) : IO Unit := do
